@@ -29,17 +29,33 @@ Canon(j, env) ==
    specs |-> SetOf(j.specs),
    dev |-> {Dev(d.o, d.ip, d.stale) : d \in SetOf(j.dev)},
    veth |-> SetOf(j.veth),
-   pend |-> env.pend, phase |-> env.phase, imp |-> env.imp, n |-> 0, bad |-> {}]
+   pend |-> env.pend, phase |-> env.phase, imp |-> env.imp, gc |-> env.gc,
+   n |-> 0, bad |-> {}]
 
-Env0 == [pend |-> {}, phase |-> "down", imp |-> {}]
+Env0 == [pend |-> {}, phase |-> "down", imp |-> {}, gc |-> NoGc]
 
+(* A recorded stepped pass: GcBegin(db), then GcRun(db) lines -- each an      *)
+(* opaque stretch of the real garbage_collect() up to the directory read at   *)
+(* which the harness let the environment act -- the environment's lines in    *)
+(* between, and GcEnd(db) for the stretch up to the return.  Which entries a  *)
+(* stretch visited is not observable; it is judged by what it removed.        *)
 ModelPost(pre, line) ==
-  Step(pre, line.ev, line.args, CHOOSE c \in Choices(pre, line.ev, line.args) : TRUE).post
+  IF line.ev = "GcRun" THEN pre
+  ELSE Step(pre, line.ev, line.args, CHOOSE c \in Choices(pre, line.ev, line.args) : TRUE).post
+
+GcStretchExplained(pre, post) ==
+  LET d == pre.gc.db IN
+  /\ pre.gc.on
+  /\ DbGet(post, d) \subseteq DbGet(pre, d)
+  /\ \A p \in DbGet(pre, d) \ DbGet(post, d) : p[2] \notin pre.live
+  /\ Obs(DbSet(post, d, {})) = Obs(DbSet(pre, d, {}))
 
 Explained(pre, line, post) ==
-  \E c \in Choices(pre, line.ev, line.args) :
-     LET r == Step(pre, line.ev, line.args, c) IN
-     r.res = line.res /\ Obs(r.post) = Obs(post)
+  IF line.ev \in {"GcRun", "GcEnd"}
+  THEN line.res = "ok" /\ GcStretchExplained(pre, post)
+  ELSE \E c \in Choices(pre, line.ev, line.args) :
+          LET r == Step(pre, line.ev, line.args, c) IN
+          r.res = line.res /\ Obs(r.post) = Obs(post)
 
 Verdict(pre, line, post) ==
   [fail |-> StepFail(pre, line.ev, line.args, line.res, post)
